@@ -27,7 +27,8 @@ def main(tier):
         for st in ("enc", "comp+enc"):
             # spread the model's behaviours over the (scenario, stacking) jobs in quick, all of them in thorough
             sel = behs if tier == "thorough" else [b for i, b in enumerate(behs) if i % (2 * len(chosen)) == k]
-            jobs.append(dict(par=dict(stack=st, seed=seed() + 141 + si, level=5), labels=s["labels"], n_model=n_model,
+            # (every second archive is read with a configuration that also carries the fail-safe "unauthenticated" option)
+            jobs.append(dict(par=dict(stack=st, seed=seed() + 141 + si, level=5, fsopt=bool(si % 2)), labels=s["labels"], n_model=n_model,
                              behaviours=sel, all_bits=(tier == "thorough"), flip_stride=1))
             k += 1
     # a fixed richer archive: three files, one interleaved, contents long enough to share chunks with later block headers
@@ -36,7 +37,8 @@ def main(tier):
             dict(op="end", id=0), dict(op="end", id=1), dict(op="start", n="c", id=2),
             dict(op="append", id=2, len=90, src="exact", piece=8), dict(op="end", id=2), dict(op="finalize")]
     for st in ("enc", "comp+enc"):
-        jobs.append(dict(par=dict(stack=st, seed=seed() + 149, level=5), labels=rich, n_model=n_model,
+        for fs in (False, True):
+          jobs.append(dict(par=dict(stack=st, seed=seed() + 149, level=5, fsopt=fs), labels=rich, n_model=n_model,
                          behaviours=behs[::7] if tier == "quick" else behs, all_bits=(tier == "thorough"), flip_stride=1))
     jobs.append(dict(par=dict(stack="enc", seed=seed() + 151), d12=True))
     # > 512 chunks: swaps at distances 1, 2, 255, 256, 257, 512 (a chunk counter truncated to a byte would collide)
